@@ -222,6 +222,12 @@ func newChainRun(c *Ctx, sc chainScenario) *chainRun {
 func (cr *chainRun) apply(ev chainEvent) {
 	ns := cr.ns
 	p := ns.Trusted
+	before := p.Best
+	defer func() {
+		if fp := ForkPoint(before, p.Best); fp != before {
+			ns.ForkEvents = append(ns.ForkEvents, ForkEvent{At: ns.S.Now(), ForkHeight: fp.Height})
+		}
+	}()
 	switch ev.kind {
 	case "extend":
 		p.SetBest(ns.BuildChain(p.Best, ev.k, nil))
